@@ -200,6 +200,36 @@ pub fn arith(m: &mut M, r: &mut Rng, n: u64, which: &str) {
                     }
                 }
             }
+            {
+                // integer-valued operands of every bit length (products of 2 x 27 bits need 54 bits)
+                let la = r.range(1, 53) as u32;
+                let lb = if r.coin() { (54i64 - la as i64 + r.range(-2, 2)).clamp(1, 53) as u32 } else { r.range(1, 53) as u32 };
+                let ia = ((r.next() >> (64 - la)) | (1u64 << (la - 1)) | 1) as f64;
+                let ib = ((r.next() >> (64 - lb)) | (1u64 << (lb - 1)) | 1) as f64;
+                let (sa, sb) = (if r.coin() { 1.0 } else { -1.0 }, if r.coin() { 1.0 } else { -1.0 });
+                m.call("arith", "new_mul", "inh", Some(2), &[A::F(sa * ia), A::F(sb * ib)]);
+                m.call("arith", "new_add", "inh", Some(2), &[A::F(sa * ia), A::F(sb * ib)]);
+                m.call("arith", "new_div", "inh", Some(2), &[A::F(sa * ia), A::F(sb * ib)]);
+                // one operand at the very top / bottom of the exponent range, the other chosen so that the
+                // result stays finite and normal
+                let et = *r.pick(&[1023, 1022, 1000, 998, 997, 996, 995, 990, -1022, -1021, -1000, -997, -996]);
+                let big = if r.below(3) == 0 { pow2(et) } else if r.coin() { next_down_mag(pow2(et)) } else { r.f64_in(et, et) };
+                let other = r.f64_in((-et / 2 - 30).clamp(-1022, 1023), (-et / 2 + 30).clamp(-1022, 1023));
+                let small = if et > 0 { r.f64_in(-60, -1) } else { r.f64_in(1, 60) };
+                m.call("arith", "new_mul", "inh", Some(2), &[A::F(big), A::F(small)]);
+                m.call("arith", "new_mul", "inh", Some(2), &[A::F(small), A::F(big)]);
+                m.call("arith", "new_mul", "inh", Some(2), &[A::F(big), A::F(other)]);
+                m.call("arith", "new_div", "inh", Some(2), &[A::F(big), A::F(if et > 0 { r.f64_in(1, 60) } else { r.f64_in(-60, -1) })]);
+                if m.load(3, big, 0.0) {
+                    m.call("arith", "mul", *r.pick(&SP_TT), Some(4), &[A::R(3), A::F(small)]);
+                    m.call("arith", "mul", *r.pick(&SP_FT), Some(4), &[A::F(small), A::R(3)]);
+                    m.call("arith", "div", *r.pick(&SP_TT), Some(4), &[A::R(3), A::F(if et > 0 { r.f64_in(1, 60) } else { r.f64_in(-60, -1) })]);
+                    if m.load(5, small, 0.0) {
+                        m.call("arith", "mul", *r.pick(&SP_TT), Some(4), &[A::R(3), A::R(5)]);
+                        m.call("arith", "div", *r.pick(&SP_TT), Some(4), &[A::R(5), A::R(3)]);
+                    }
+                }
+            }
             let z = r.f64_in(-1022, 1023);
             m.call("arith", "from_f64", *r.pick(&["From", "from_f64", "Into", "NumCast"]), Some(2), &[A::F(z)]);
         }
